@@ -419,9 +419,17 @@ def plan_c13(P: Planner):
 
     n = r.randint(3, 9)
     for _ in range(n):
-        k = weighted(r, [("calib", 5), ("forward", 4), ("noext", 1), ("lib", 1), ("newdep", 0.7 if len(P.deps) < 3 else 0), ("freeze", 0.6), ("reuse_calib", 1.5)])
+        k = weighted(r, [("calib", 5), ("forward", 4), ("noext", 1), ("lib", 1), ("newdep", 0.7 if len(P.deps) < 3 else 0), ("freeze", 0.6), ("reuse_calib", 1.5), ("refill", 1.2)])
         a = P.pick(lambda a: a.quantized)
-        if k == "calib":
+        if k == "refill" and a and a.inputs:
+            prev = copy.deepcopy(r.choice(a.inputs))
+            if not prev.get("q"):
+                nxt = P.input_desc(a, fresh=True)
+                nxt.pop("q", None)
+                nxt["lead"] = prev["lead"]
+                P.emit(ops, {"op": "forward", "dep": a.id, "input": prev})
+                P.emit(ops, {"op": "refill_forward", "dep": a.id, "input": prev, "input2": nxt})
+        elif k == "calib":
             P.calib(ops, body, 0)
         elif k == "reuse_calib":
             P.calib(ops, body, 0, inst="reuse")
@@ -633,6 +641,8 @@ def h_train(P, ops, a, lr_p=0.5):
     op = {"op": "train", "dep": a.id, "input": desc, "gseed": P.S.sub("g", P.nops) % (1 << 30), "gmag": r.choice([1.0, 1.0, 0.1, 10.0])}
     if r.random() < 0.35:
         op["noncontig"] = True
+    if r.random() < 0.3:
+        op["peek"] = True
     if r.random() < 0.2:
         d2 = P.input_desc(a, fresh=True)
         d2.pop("q", None)
@@ -760,7 +770,7 @@ def plan_c10(P):
         if not a.frozen:
             P.emit(ops, {"op": "freeze", "dep": a.id})
             a.frozen = True
-        a2 = P.new_dep(ops, like=a, force={"weights": a.weights, "activations": a.activations})
+        a2 = P.new_dep(ops, like=a, force={"weights": a.weights if r.random() < 0.6 else r.choice(WQ), "activations": a.activations})
         if a2.activations is not None and r.random() < 0.6:
             h_calibrate(P, ops, a2)
         P.emit(ops, {"op": "freeze", "dep": a2.id})
@@ -770,6 +780,8 @@ def plan_c10(P):
         f2 = h_save(P, ops, a2)
         b = h_load(P, ops, f1, target="same", restart=False)
         h_probe(P, ops, b, 1)
+        if r.random() < 0.3:
+            P.emit(ops, {"op": "to", "dep": b.id, "how": "dtype", "dtype": r.choice(DT)})
         P.emit(ops, {"op": "load", "fid": f2, "new": b.id, "into": b.id, "target": "same", "assign": r.random() < 0.2, "weights_only": True, "init": 1})
         h_probe(P, ops, a, 1)
         h_save(P, ops, a)
